@@ -94,10 +94,8 @@ def run(tier, seed, replay=None):
     memseq.init()
     out, rej = memseq.judge("C09", tier, seed, replay, cases,
                             "one trace per (sequence, value/bank, memory image, last accessible location, hole, fault, "
-                            "addressing kind, latch on/off, environment ticks); non-trivial = distinct cases with >= 2 commands")
-    with core.Scratch("c09m") as sc:
-        if replay is None:
-            pass
+                            "addressing kind, latch on/off, environment ticks); non-trivial = distinct cases with >= 2 commands",
+                            model_ops=("read", "readall"))
     out.assumptions = ["silence on an implemented location is indistinguishable from an unimplemented one (treated alike)",
                        "header locations 0..2 (0..1 in bank 0) are set aside for read_all, as the property says",
                        "read_all with latching: the snapshot is the memory when the first data location is read; the "
